@@ -2,6 +2,7 @@ import Spec.Offline
 import Lemmas.Offline.Split
 import Lemmas.Offline.Literal
 import Lemmas.Offline.Run
+import Lemmas.Offline.Linear
 /-!
 # C12 — the offline SQL script has the same effect as the online run
 -/
@@ -190,14 +191,18 @@ theorem vtOk (q : Str → Bool) (hq : BareSafe q) : VtOk q := by
     rw [this]; decide
 
 /-- **C12.same_effect (partial form).** For every quoting policy that is safe for bare names, every
-list of migration steps with bodies from the language, every version bookkeeping, every assumed
-start and every database whose version rows are that start: executing the offline script
-statement by statement leaves the same tables, rows, indexes and version rows as the online
-run (or both runs raise).  Extra hypotheses, all decidable and evaluated by the driver on the
-generated inputs (`stepOk`): no TAB in a rendered statement (see `same_effect_counterexample`),
-every rendered body statement is read back as itself (`readsBack`; proved in general for the
-version-table statements, `reads_back_vt`), `op.execute` texts are plain single statements,
-and the head set is empty only before the first / after the last step (`midOk`). -/
+list of migration steps with bodies from the language, every version bookkeeping per step (any
+list of insert / update / delete, so branched and merged plans are covered as a parameter), every
+assumed start and every database whose version rows are that start: executing the offline script
+statement by statement leaves the same tables, rows, indexes and version rows as the online run
+(or both runs raise).  Hypotheses (`stepOk`, all decidable):
+* no TAB in a rendered statement — genuinely needed: `same_effect_counterexample`, finding C12-TAB;
+* the statements are statements of the language (`stmtWf`: non-empty column / value lists, user
+  tables not called `alembic_version`, version numbers without `'`); that each of them is read
+  back as itself is no longer assumed but proved (`reads_back`);
+* `op.execute` texts are plain single statements (`plainText`);
+* the head set is empty only before the first / after the last step (`midOk`) — proved for
+  linear histories in `same_effect_linear_upgrade` / `same_effect_linear_downgrade`. -/
 theorem same_effect_partial (q : Str → Bool) (hq : BareSafe q) (start : List Str) (steps : List Step) (db₀ : DB)
     (hsteps : steps.all (stepOk q) = true)
     (hdb : db₀.version = if start.isEmpty then none else some start)
@@ -233,6 +238,111 @@ theorem same_effect_partial (q : Str → Bool) (hq : BareSafe q) (start : List S
     rw [this]
     refine run_agree q steps [] db₀.ensureVT db₀ hsteps (by simp [DB.ensureVT, hdb]) ?_ hmid
     exact Or.inr ⟨rfl, hne rfl, by simp [execStmt, DB.vtCreate, DB.ensureVT, hdb]⟩
+
+/-! ## linear histories: no hypothesis on the plan -/
+
+/-- **C12.same_effect_linear_upgrade.** `upgrade --sql prev:end` over a linear history: for every
+list of revisions to apply (bodies from the language, no TAB, plain `execute` texts: `revOk`),
+every assumed start `prev` (`none` = base) and every database at `prev`, the offline script has
+the same effect as the online upgrade.  The plan, its version statements, `midOk` and `stepOk`
+are all derived, not assumed. -/
+theorem same_effect_linear_upgrade (q : Str → Bool) (hq : BareSafe q) (prev : Option Str) (revs : List Rev) (db₀ : DB)
+    (hrev : revs.all (revOk q) = true) (hprev : ∀ p, prev = some p → idOk p = true)
+    (hdb : db₀.version = prev.map (fun p => [p])) (hne : prev = none → revs ≠ []) :
+    sameOutcome ((offline q prev.toList (upSteps prev revs)).bind (fun script => execScript q script db₀))
+      (online q (upSteps prev revs) db₀) := by
+  refine same_effect_partial q hq prev.toList (upSteps prev revs) db₀ (stepOk_up q revs prev hprev hrev) ?_ ?_
+    (midOk_up revs prev)
+  · cases prev <;> simpa using hdb
+  · intro he
+    cases prev with
+    | none =>
+      cases revs with
+      | nil => exact absurd rfl (hne rfl)
+      | cons r rs => simp [upSteps]
+    | some p => simp at he
+
+/-- **C12.same_effect_linear_downgrade.** `downgrade --sql head:tgt` over a linear history:
+for every non-empty list of revisions to revert (current head first), every target (`none` =
+base) and every database at the head, the offline script has the same effect as the online
+downgrade (at base the offline script drops the version table, the online run leaves it empty:
+the version *rows* agree). -/
+theorem same_effect_linear_downgrade (q : Str → Bool) (hq : BareSafe q) (r : Rev) (revs : List Rev) (tgt : Option Str)
+    (db₀ : DB) (hrev : (r :: revs).all (revOk q) = true) (htgt : ∀ t, tgt = some t → idOk t = true)
+    (hdb : db₀.version = some [r.id]) :
+    sameOutcome ((offline q [r.id] (downSteps (r :: revs) tgt)).bind (fun script => execScript q script db₀))
+      (online q (downSteps (r :: revs) tgt) db₀) := by
+  refine same_effect_partial q hq [r.id] (downSteps (r :: revs) tgt) db₀ (stepOk_down q revs r tgt htgt hrev) ?_ ?_
+    (midOk_down revs r tgt)
+  · simpa using hdb
+  · intro he; simp at he
+
+theorem all_take_drop (q : Str → Bool) (h : List Rev) (i n : Nat) (hh : h.all (revOk q) = true) :
+    ((h.drop i).take n).all (revOk q) = true := by
+  rw [List.all_eq_true] at hh ⊢
+  intro x hx
+  exact hh x (List.mem_of_mem_drop (List.mem_of_mem_take hx))
+
+theorem idOk_getElem? (q : Str → Bool) (h : List Rev) (k : Nat) (hh : h.all (revOk q) = true) :
+    ∀ p, (h[k]?).map (fun r => r.id) = some p → idOk p = true := by
+  intro p hp
+  cases hk : h[k]? with
+  | none => simp [hk] at hp
+  | some r =>
+    simp only [hk, Option.map_some, Option.some.injEq] at hp
+    subst hp
+    rw [List.all_eq_true] at hh
+    have := hh r (List.mem_of_getElem? hk)
+    simp only [revOk, Bool.and_eq_true] at this
+    exact this.1.1
+
+/-- **C12.same_effect_linear_range.** The same for every `start:end` range `i:j` of every linear
+history `h` (positions counted from 1, `0` = base) all of whose revisions are `revOk`. -/
+theorem same_effect_linear_range (q : Str → Bool) (hq : BareSafe q) (h : List Rev) (i j : Nat) (db₀ : DB)
+    (hh : h.all (revOk q) = true)
+    (hdb : db₀.version = (upgradeRange h i j).1.map (fun p => [p]))
+    (hne : (upgradeRange h i j).1 = none → (upgradeRange h i j).2 ≠ []) :
+    sameOutcome
+      ((offline q (upgradeRange h i j).1.toList (upSteps (upgradeRange h i j).1 (upgradeRange h i j).2)).bind
+        (fun script => execScript q script db₀))
+      (online q (upSteps (upgradeRange h i j).1 (upgradeRange h i j).2) db₀) := by
+  refine same_effect_linear_upgrade q hq _ _ db₀ (all_take_drop q h i (j - i) hh) ?_ hdb hne
+  intro p hp
+  simp only [upgradeRange] at hp
+  split at hp
+  · simp at hp
+  · exact idOk_getElem? q h (i - 1) hh p hp
+
+/-- the downgrade range `j:i` (`j > i`) of every linear history -/
+theorem same_effect_linear_range_downgrade (q : Str → Bool) (hq : BareSafe q) (h : List Rev) (j i : Nat) (db₀ : DB)
+    (r : Rev) (revs : List Rev) (hh : h.all (revOk q) = true)
+    (hr : (downgradeRange h j i).1 = r :: revs) (hdb : db₀.version = some [r.id]) :
+    sameOutcome
+      ((offline q [r.id] (downSteps (r :: revs) (downgradeRange h j i).2)).bind (fun script => execScript q script db₀))
+      (online q (downSteps (r :: revs) (downgradeRange h j i).2) db₀) := by
+  refine same_effect_linear_downgrade q hq r revs _ db₀ ?_ ?_ hdb
+  · rw [← hr]
+    simp only [downgradeRange, List.all_reverse]
+    exact all_take_drop q h i (j - i) hh
+  · intro t ht
+    simp only [downgradeRange] at ht
+    split at ht
+    · simp at ht
+    · exact idOk_getElem? q h (i - 1) hh t ht
+
+/-- non-vacuity: a two-revision history with awkward names and values satisfies `revOk`, and
+    its ranges are the expected ones -/
+def demoHistory : List Rev :=
+  [⟨['a', '1'], [.createTable ['t', ';', '"'] [⟨['i', 'd'], .integer, false⟩, ⟨['s', ' ', 'x'], .varchar 50, true⟩]],
+      [.dropTable ['t', ';', '"']]⟩,
+   ⟨['b', '2'], [.bulkInsert ['t', ';', '"'] [['i', 'd'], ['s', ' ', 'x']] [[.int 1, .str ['o', '\'', ';', '-', '-', '\n']], [.int (-2), .null]]],
+      [.execute ['D', 'E', 'L', 'E', 'T', 'E', ' ', 'F', 'R', 'O', 'M', ' ', 'x']]⟩]
+
+example : demoHistory.all (revOk (fun _ => true)) = true := by decide +kernel
+example : (upgradeRange demoHistory 1 2).1 = some ['a', '1'] ∧ ((upgradeRange demoHistory 1 2).2.map (fun r => r.id)) = [['b', '2']] := by
+  decide +kernel
+example : ((downgradeRange demoHistory 2 0).1.map (fun r => r.id)) = [['b', '2'], ['a', '1']] ∧ (downgradeRange demoHistory 2 0).2 = none := by
+  decide +kernel
 
 /-- the full-strength statement: `same_effect_partial` without the "no TAB" hypothesis
     (`stepOk` replaced by its TAB-free-less variant is what the property text asks for) -/
